@@ -79,7 +79,8 @@ RULE = ("case = 16 sessions (hard reset between them) of 1-3 enable epochs on on
         "latency, queue burstiness or offers aimed at the LBAD/LGOOD decode cycle); the partner is reactive, LBAD 0-30 cycles after a "
         "header; non-trivial = >= 1 LBAD with >= 2 unacknowledged headers, >= 1 queue offer without credit and >= 10 headers on the "
         "wire; distinct = hash of the profiles, queued headers and every emitted link command")
-REQUIRED_BINS = ["disable_during_retry", "disable_quiet", "disable_busy", "queue_valid_without_credit", "accept_on_last_credit", "unacked_2_at_accept", "unacked_3plus_at_accept",
+REQUIRED_BINS = ["buffer_count_2", "buffer_count_4", "buffer_count_8", "queue_header_delayed_set", "queue_header_link_fields_junk",
+                 "retransmission_of_header_queued_with_delayed", "disable_during_retry", "disable_quiet", "disable_busy", "queue_valid_without_credit", "accept_on_last_credit", "unacked_2_at_accept", "unacked_3plus_at_accept",
                  "lbad_unacked_0", "lbad_unacked_1", "lbad_unacked_2", "lbad_unacked_3plus", "lbad_header_in_flight", "lbad_wire_idle",
                  "lbad_during_retransmission_run", "lbad_word_near_header_end", "new_header_after_retransmission",
                  "accept_during_retransmission_run", "accept_in_cycle_after_lbad_word", "accept_in_cycle_after_retiring_lgood_word", "lgood_mismatch", "lbad_after_lgood_mismatch", "lcrd_mismatch",
@@ -132,6 +133,9 @@ class Epoch:
         self.adv = None
         self.adv_cycle = None
         self.A = []              # accepted headers (dw0, dw1, dw2)
+        self.cur_lbad = None     # the LBAD the current retransmission run answers
+        self.early_copy = None   # index of a retransmission that started inside the window after an LBAD, queued with delayed = 1
+        self.qdl = []            # `delayed` field of the queued header (junk from the protocol layer)
         self.index = {}
         self.k = 0               # retired
         self.nxt = 0             # next expected on the wire
@@ -156,11 +160,12 @@ class Epoch:
 
 
 class Oracle:
-    def __init__(self, res, reported, label=""):
+    def __init__(self, res, reported, label="", buffers=BUFFERS):
+        self.B = buffers             # header buffers / credits of the configuration under test
         self.res = res
         self.reported = reported     # mechanisms already reported in this case
         self.label = label
-        self.tainted = False         # after the first violation of a session nothing more is judged (no follow-up alarms)
+        self.tainted = False         # after the first violation of an epoch nothing more is judged until the link is re-enabled
         self.ep = None
         self.prev_closed = -10 ** 9
         self.prev_retry_open = False
@@ -185,11 +190,16 @@ class Oracle:
     def enable(self, cyc, val):
         if val:
             self.ep = Epoch(cyc)
+            self.tainted = False
         elif self.ep is not None:
             self._resolve_suspect("epoch_end")
             self.ep.closed = cyc
             self.prev_closed = cyc
+            carried = self.prev_retry_open
             self.prev_retry_open = bool(self.ep.pend) or self.ep.lbad_open or self.ep.last_dl
+            if self.tainted and (self.ep.last_lbad >= 0 or carried):
+                self.prev_retry_open = True      # the model lost track in this epoch; an LBAD was seen (now or in the tainted epoch
+                #                                  before), the retry may be unfinished
             self.res.bin("disable_during_retry" if self.prev_retry_open else ("disable_quiet" if self.quiet() else "disable_busy"))
             self.ep = None
         self.idle = self.qwait = 0
@@ -215,11 +225,11 @@ class Oracle:
                 ep.lgood_mismatch_open = True
                 res.bin("lgood_mismatch")
         elif cmd == LCRD:
-            if sub < BUFFERS:
+            if sub < self.B:
                 ep.credits += 1
                 if sub == ep.letter:
                     ep.strict += 1
-                    ep.letter = (ep.letter + 1) % BUFFERS
+                    ep.letter = (ep.letter + 1) % self.B
                     res.event("credits_received")
                 else:
                     ep.mismatch = True
@@ -246,7 +256,7 @@ class Oracle:
         else:
             res.bin("unrelated_command")
 
-    def accept(self, cyc, hdr, back_to_back):
+    def accept(self, cyc, hdr, back_to_back, queued_delayed=0):
         ep, res = self.ep, self.res
         res.event("headers_accepted")
         self.qwait = 0
@@ -280,7 +290,8 @@ class Oracle:
             res.bin("accept_in_cycle_after_lbad_word")
         ep.index[hdr] = len(ep.A)
         ep.A.append(hdr)
-        if len(ep.A) - ep.k > BUFFERS:
+        ep.qdl.append(queued_delayed)
+        if len(ep.A) - ep.k > self.B:
             ep.overflow = True
             ep.suspect = None
         if len(ep.A) > 8:
@@ -396,6 +407,8 @@ class Oracle:
                 ep.nxt = exp = p["k"]
                 ep.pend = [q for q in ep.pend if q["t"] > p["t"]]
                 ep.run_active = ep.nxt < ep.hw
+                if s <= p["t"] + G and ep.qdl[idx] and idx < ep.hw:
+                    ep.early_copy = idx          # DL may stem from the queued header, not from the retry (see findings B)
             elif ep.pend and idx < exp:
                 # the transmitter went back, so it has seen the LBAD: judge against the order the LBAD demands
                 applied = p = ep.pend[-1]
@@ -413,6 +426,8 @@ class Oracle:
                     mech = "new_header_skipped"
             elif idx < ep.k:
                 mech = "acknowledged_header_transmitted_again"
+            elif idx == ep.early_copy and idx == exp - 1:
+                mech = "extra_copy_of_unacked_header_right_after_lbad_dl_from_queued_header"
             else:
                 mech = "header_repeated_without_lbad"
             self.report(mech, what + " is index %d" % idx + ctx)
@@ -420,11 +435,19 @@ class Oracle:
         if is_retx:
             res.event("retransmissions_compared")
             ep.run_len += 1
+            if ep.qdl[idx]:
+                res.bin("retransmission_of_header_queued_with_delayed")
+            if applied is not None:
+                ep.cur_lbad = applied
             if not dl:
-                self.report("retransmission_without_dl", what + " is a retransmission of index %d" % idx + ctx)
+                c = ep.cur_lbad
+                self.report("lbad_coinciding_with_end_of_retry_retransmission_without_dl" if c and c["at_done"] and c["stale_dl"]
+                            else "retransmission_without_dl", what + " is a retransmission of index %d" % idx + ctx)
         elif ep.had_run:
             res.bin("new_header_after_retransmission")
         self._seq(ep, idx, seq, what)
+        if idx != ep.early_copy or idx != exp:
+            ep.early_copy = None
         ep.nxt = idx + 1
         was_run = ep.run_active
         ep.hw = max(ep.hw, idx + 1)
@@ -547,10 +570,12 @@ def run_case(rng, tier, res):
     from amaranth import Elaboratable, Module, Signal, ClockDomain
     from luna.gateware.usb.usb3.link.transmitter import PacketTransmitter
 
+    nbuf = rng.choice([4, 4, 2, 8])       # power-of-two header buffer counts (the pointers of the design wrap at 2**n)
+
     class Top(Elaboratable):
         """the real transmitter in an `ss` domain whose (synchronous) reset the harness can pulse between sessions"""
         def __init__(self):
-            self.dut = PacketTransmitter()
+            self.dut = PacketTransmitter(buffer_count=nbuf)
             self.rst = Signal()
 
         def elaborate(self, platform):
@@ -585,10 +610,11 @@ def run_case(rng, tier, res):
         _ast.Operator.shape = orig_shape
     q, qh = dut.queue, dut.queue.header
     snk, src, ds = dut.sink, dut.source, dut.data_sink
-    b.watch(snk.valid, snk.data, snk.ctrl, src.valid, src.data, src.ctrl, src.ready, q.valid, q.ready, qh.dw0, qh.dw1, qh.dw2,
+    b.watch(snk.valid, snk.data, snk.ctrl, src.valid, src.data, src.ctrl, src.ready, q.valid, q.ready, qh.dw0, qh.dw1, qh.dw2, qh.delayed,
             dut.enable, dut.lrty_pending, dut.retry_required, dut.bringup_complete, ds.valid, ds.ready, ds.last,
             dut.credits_available, dut.packets_to_send)
-    res.desc = {"sessions": []}
+    res.desc = {"buffer_count": nbuf, "sessions": []}
+    res.sig(nbuf)
     reported = set()
     st = {}
     cur = {"P": draw_profile(rng), "orc": None, "partner": None}
@@ -656,8 +682,8 @@ def run_case(rng, tier, res):
                 self.push(d, LCRD, None)     # a credit before the advertisement
                 d += 3
             d = self.chain(d, LGOOD, adv)
-            first = rng.choice([4, 4, 4, 1, 2, 3])
-            for i in range(BUFFERS):
+            first = rng.choice([nbuf, nbuf, nbuf, 1, 2, 3])
+            for i in range(nbuf):
                 d += rng.randint(2, 6) if i < first else rng.randint(30, 200)
                 self.push(d, LCRD, None)
 
@@ -741,7 +767,7 @@ def run_case(rng, tier, res):
         qv, qr = bn.get(q.valid), bn.get(q.ready)
         if qv and qr:
             trace("ACCEPT index", len(orc.ep.A) if orc.ep else None, "%08x" % bn.get(qh.dw0))
-            orc.accept(cyc, (bn.get(qh.dw0), bn.get(qh.dw1), bn.get(qh.dw2)), st["prev_accept_cycle"] == cyc - 1)
+            orc.accept(cyc, (bn.get(qh.dw0), bn.get(qh.dw1), bn.get(qh.dw2)), st["prev_accept_cycle"] == cyc - 1, bn.get(qh.delayed))
             st["prev_accept_cycle"] = cyc
         # wire
         if st["prev_xfer"] and not v:
@@ -803,14 +829,14 @@ def run_case(rng, tier, res):
                 if cmd == LCRD:
                     r = rng.random()
                     if r < P["p_lcrd_dup"]:
-                        sub = (partner.letter - 1) % BUFFERS          # repeated letter, the real one follows later
+                        sub = (partner.letter - 1) % nbuf          # repeated letter, the real one follows later
                         partner.push(now + rng.randint(3, 10), LCRD, None)
                     elif r < P["p_lcrd_dup"] + P["p_lcrd_skip"]:
-                        sub = (partner.letter + 1) % BUFFERS          # a letter was lost
-                        partner.letter = (partner.letter + 2) % BUFFERS
+                        sub = (partner.letter + 1) % nbuf          # a letter was lost
+                        partner.letter = (partner.letter + 2) % nbuf
                     else:
                         sub = partner.letter
-                        partner.letter = (partner.letter + 1) % BUFFERS
+                        partner.letter = (partner.letter + 1) % nbuf
                 w = lc_word(cmd, sub)
                 ctrl = 0
                 how = "ok"
@@ -908,6 +934,13 @@ def run_case(rng, tier, res):
                     setv(qh.dw0, offered[0]); setv(qh.dw1, offered[1]); setv(qh.dw2, offered[2])
                     # junk in the link-layer fields: the transmitter assigns them
                     setv(qh.sequence_number, rng.randrange(8)); setv(qh.crc16, rng.getrandbits(16)); setv(qh.crc5, rng.getrandbits(5))
+                    if rng.random() < 0.5:
+                        dly = rng.randrange(2)
+                        setv(qh.delayed, dly); setv(qh.deferred, rng.randrange(2)); setv(qh.hub_depth, rng.randrange(8))
+                        setv(qh.dw3_reserved, rng.randrange(8))
+                        res.bin("queue_header_delayed_set" if dly else "queue_header_link_fields_junk")
+                    else:
+                        setv(qh.delayed, 0); setv(qh.deferred, 0); setv(qh.hub_depth, 0); setv(qh.dw3_reserved, 0)
                 else:
                     setv(q.valid, 0)
                     if rng.random() < 0.3:
@@ -981,7 +1014,8 @@ def run_case(rng, tier, res):
         yield
         setv(top.rst, 0)
         yield
-        orc = cur["orc"] = Oracle(res, reported, "session %d (%s) " % (number, P["profile"]))
+        orc = cur["orc"] = Oracle(res, reported, "buffer_count %d session %d (%s) " % (nbuf, number, P["profile"]), nbuf)
+        res.bin("buffer_count_%d" % nbuf)
         partner = cur["partner"] = Partner()
         st["in_reset"] = False
         trace("SESSION", number, P)
@@ -1011,8 +1045,6 @@ def run_case(rng, tier, res):
                     partner.spurious(b.cycle)
                 yield
             st["offering"] = False
-            if orc.tainted:
-                break
             # let things settle: pending commands go out, owed headers are transmitted (bounded)
             n = 0
             while n < (100 if aborted else 600) and not orc.tainted and not (
